@@ -1,6 +1,25 @@
 /-
-Properties C14 / C07 / C18 of the FIELD LOOKUP chains of the Awkward backend (`Glue/Fields.lean`): the interpreter's
-`from_fields` / `from_momentum_fields`, the numba typer and the numba lowering.  For ALL scalar types `S`.
+Properties C14 / C07 / C18 of the FIELD LOOKUP chains of the Awkward backend (model: `Glue/Fields.lean`): the interpreter's
+`from_fields` / `from_momentum_fields`, the numba typer (`_aztype_of`, `_ltype_of`, `_ttype_of`) and the numba lowering
+(`_numba_lower` + getters).  For ALL scalar types `S`, all dimensions, both flavors.
+
+0. `c14f_look_perm`, `c14f_names_contains` — a field list with distinct names is its name → value map.
+1. `c14f_priority_*` — CLOSED FORMS of the six interpreter chains: x-y before rho-phi, z before theta before eta, t before
+   tau, and per coordinate the generic spelling before the momentum ones (`x`>`px`, `t`>`E`>`e`>`energy`, …);
+   `c14f_read_error` (only `ValueError`).
+3. `c14f_numba_agrees` (+ `_map`, `_ok`, `c14f_numba_error`, `c14f_no_keyError`) — compiled = interpreted on the VALUES for
+   EVERY field list; the `raise AssertionError` branches of `_numba_lower` are dead.
+4. `c14f_order`, `c14f_order_numba`, `c14f_order_numba_dtype`, `c14f_order_chains`, `c14f_order_typing` — field order.
+5. `c14f_extras`, `c14f_extras_insert`, `c14f_extras_map(_numba)`, `c14f_extras_dtype` (section 10) — non-coordinate fields;
+   `c14f_generic_map`, `c14f_generic_ignores_momentum` — generic records read the nine generic names only.
+6. `c14f_synonym_x … c14f_synonym_tau_mass`, `c14f_synonym` (all ten), `c14f_synonym_needs_hypothesis`.
+7. typing order vs lowering order: `c14f_typer_prefers_momentum`, `c14f_lowering_prefers_generic`,
+   `c14f_numba_dtype_same_fields`, `c14f_numba_dtype_generic`, `c14f_numba_dtype_single`, `c14f_numba_dtype_uniform` (no
+   conflict) and `c14f_numba_dtype_conflict(_x)`, `c14f_numba_dtype_witness(_others)` — THE DEVIATION: a momentum record with
+   `x` and `px` of different dtypes is read by the interpreter and rejected by the compiler (`TypingError`).
+8. `_wrap_result` (repair 17af0b2): `c14f_wrap_fresh_az`, `c14f_wrap_fresh_full`, `c14f_wrap_realWrap`,
+   `c14f_wrap_passthrough_az`, `c14f_wrap_passthrough_azLon`.
+9. examples: the (px, py, eta, mass, charge) record.
 -/
 import VectorModel.Glue.Fields
 import VectorModel.Props.C18
@@ -536,6 +555,931 @@ theorem c14f_synonym_x (dim : Nat) (fs : List (String × S)) (h : "px" ∉ field
   simp only [readRec, readM, azOfM, lonOfM, tmpOfM, c14f_priority_az_mom, c14f_priority_lon_mom,
     c14f_priority_tmp_mom, if_true, look_rename "x" "px" (by decide) fs h]
   simp [h0]
+
+/-- y → py -/
+theorem c14f_synonym_y (dim : Nat) (fs : List (String × S)) (h0 : "py" ∉ fieldNames fs) :
+    readRec true dim (rename "y" "py" fs) = readRec true dim fs := by
+  have k0 := look_none fs _ h0
+  simp only [readRec, readM, azOfM, lonOfM, tmpOfM, c14f_priority_az_mom, c14f_priority_lon_mom,
+    c14f_priority_tmp_mom, if_true, look_rename "y" "py" (by decide) fs h0]
+  simp [k0]
+
+/-- rho → pt -/
+theorem c14f_synonym_rho (dim : Nat) (fs : List (String × S)) (h0 : "pt" ∉ fieldNames fs) :
+    readRec true dim (rename "rho" "pt" fs) = readRec true dim fs := by
+  have k0 := look_none fs _ h0
+  simp only [readRec, readM, azOfM, lonOfM, tmpOfM, c14f_priority_az_mom, c14f_priority_lon_mom,
+    c14f_priority_tmp_mom, if_true, look_rename "rho" "pt" (by decide) fs h0]
+  simp [k0]
+
+/-- z → pz -/
+theorem c14f_synonym_z (dim : Nat) (fs : List (String × S)) (h0 : "pz" ∉ fieldNames fs) :
+    readRec true dim (rename "z" "pz" fs) = readRec true dim fs := by
+  have k0 := look_none fs _ h0
+  simp only [readRec, readM, azOfM, lonOfM, tmpOfM, c14f_priority_az_mom, c14f_priority_lon_mom,
+    c14f_priority_tmp_mom, if_true, look_rename "z" "pz" (by decide) fs h0]
+  simp [k0]
+
+/-- t → E (whatever other temporal spellings are present) -/
+theorem c14f_synonym_t_E (dim : Nat) (fs : List (String × S)) (h0 : "E" ∉ fieldNames fs) :
+    readRec true dim (rename "t" "E" fs) = readRec true dim fs := by
+  have k0 := look_none fs _ h0
+  simp only [readRec, readM, azOfM, lonOfM, tmpOfM, c14f_priority_az_mom, c14f_priority_lon_mom,
+    c14f_priority_tmp_mom, if_true, look_rename "t" "E" (by decide) fs h0]
+  simp [k0]
+
+/-- t → e, when `E` (which is looked up before `e`) is absent -/
+theorem c14f_synonym_t_e (dim : Nat) (fs : List (String × S)) (h0 : "E" ∉ fieldNames fs) (h1 : "e" ∉ fieldNames fs) :
+    readRec true dim (rename "t" "e" fs) = readRec true dim fs := by
+  have k0 := look_none fs _ h0
+  have k1 := look_none fs _ h1
+  simp only [readRec, readM, azOfM, lonOfM, tmpOfM, c14f_priority_az_mom, c14f_priority_lon_mom,
+    c14f_priority_tmp_mom, if_true, look_rename "t" "e" (by decide) fs h1]
+  simp [k0, k1]
+
+/-- t → energy, when `E` and `e` (looked up before `energy`) are absent -/
+theorem c14f_synonym_t_energy (dim : Nat) (fs : List (String × S)) (h0 : "E" ∉ fieldNames fs) (h1 : "e" ∉ fieldNames fs) (h2 : "energy" ∉ fieldNames fs) :
+    readRec true dim (rename "t" "energy" fs) = readRec true dim fs := by
+  have k0 := look_none fs _ h0
+  have k1 := look_none fs _ h1
+  have k2 := look_none fs _ h2
+  simp only [readRec, readM, azOfM, lonOfM, tmpOfM, c14f_priority_az_mom, c14f_priority_lon_mom,
+    c14f_priority_tmp_mom, if_true, look_rename "t" "energy" (by decide) fs h2]
+  simp [k0, k1, k2]
+
+/-- tau → M -/
+theorem c14f_synonym_tau_M (dim : Nat) (fs : List (String × S)) (h0 : "M" ∉ fieldNames fs) :
+    readRec true dim (rename "tau" "M" fs) = readRec true dim fs := by
+  have k0 := look_none fs _ h0
+  simp only [readRec, readM, azOfM, lonOfM, tmpOfM, c14f_priority_az_mom, c14f_priority_lon_mom,
+    c14f_priority_tmp_mom, if_true, look_rename "tau" "M" (by decide) fs h0]
+  simp [k0]
+
+/-- tau → m, when `M` is absent -/
+theorem c14f_synonym_tau_m (dim : Nat) (fs : List (String × S)) (h0 : "M" ∉ fieldNames fs) (h1 : "m" ∉ fieldNames fs) :
+    readRec true dim (rename "tau" "m" fs) = readRec true dim fs := by
+  have k0 := look_none fs _ h0
+  have k1 := look_none fs _ h1
+  simp only [readRec, readM, azOfM, lonOfM, tmpOfM, c14f_priority_az_mom, c14f_priority_lon_mom,
+    c14f_priority_tmp_mom, if_true, look_rename "tau" "m" (by decide) fs h1]
+  simp [k0, k1]
+
+/-- tau → mass, when `M` and `m` are absent -/
+theorem c14f_synonym_tau_mass (dim : Nat) (fs : List (String × S)) (h0 : "M" ∉ fieldNames fs) (h1 : "m" ∉ fieldNames fs) (h2 : "mass" ∉ fieldNames fs) :
+    readRec true dim (rename "tau" "mass" fs) = readRec true dim fs := by
+  have k0 := look_none fs _ h0
+  have k1 := look_none fs _ h1
+  have k2 := look_none fs _ h2
+  simp only [readRec, readM, azOfM, lonOfM, tmpOfM, c14f_priority_az_mom, c14f_priority_lon_mom,
+    c14f_priority_tmp_mom, if_true, look_rename "tau" "mass" (by decide) fs h2]
+  simp [k0, k1, k2]
+
+/-- ALL ten synonyms at once: renaming one field to its momentum synonym, when no other spelling of the same coordinate
+is present, changes neither what the interpreter nor what the compiled code reads from a momentum record -/
+theorem c14f_synonym (dim : Nat) (fs : List (String × S)) (a b : String) (hab : (a, b) ∈ synonymTable)
+    (h : ∀ s ∈ spellings a, s ≠ a → s ∉ fieldNames fs) :
+    readRec true dim (rename a b fs) = readRec true dim fs ∧
+    nbReadRec true dim (rename a b fs) = nbReadRec true dim fs := by
+  have key : readRec true dim (rename a b fs) = readRec true dim fs := by
+    simp only [synonymTable, List.mem_cons, Prod.mk.injEq, List.not_mem_nil, or_false] at hab
+    rcases hab with ⟨rfl, rfl⟩ | ⟨rfl, rfl⟩ | ⟨rfl, rfl⟩ | ⟨rfl, rfl⟩ | ⟨rfl, rfl⟩ | ⟨rfl, rfl⟩ | ⟨rfl, rfl⟩ |
+      ⟨rfl, rfl⟩ | ⟨rfl, rfl⟩ | ⟨rfl, rfl⟩
+    · exact c14f_synonym_x dim fs (h "px" (by decide) (by decide))
+    · exact c14f_synonym_y dim fs (h "py" (by decide) (by decide))
+    · exact c14f_synonym_rho dim fs (h "pt" (by decide) (by decide))
+    · exact c14f_synonym_z dim fs (h "pz" (by decide) (by decide))
+    · exact c14f_synonym_t_E dim fs (h "E" (by decide) (by decide))
+    · exact c14f_synonym_t_e dim fs (h "E" (by decide) (by decide)) (h "e" (by decide) (by decide))
+    · exact c14f_synonym_t_energy dim fs (h "E" (by decide) (by decide)) (h "e" (by decide) (by decide))
+        (h "energy" (by decide) (by decide))
+    · exact c14f_synonym_tau_M dim fs (h "M" (by decide) (by decide))
+    · exact c14f_synonym_tau_m dim fs (h "M" (by decide) (by decide)) (h "m" (by decide) (by decide))
+    · exact c14f_synonym_tau_mass dim fs (h "M" (by decide) (by decide)) (h "m" (by decide) (by decide))
+        (h "mass" (by decide) (by decide))
+  exact ⟨key, by rw [c14f_numba_agrees, c14f_numba_agrees, key]⟩
+
+/-- the hypothesis about other spellings cannot be dropped: with `E` present, renaming `t` to `e` hands the temporal
+coordinate to `E` (which the chain looks up first) -/
+theorem c14f_synonym_needs_hypothesis :
+    let fs : List (String × Int) := [("x", 1), ("y", 2), ("z", 3), ("t", 4), ("E", 40)]
+    readRec true 4 fs = .ok ⟨(.xy, 1, 2), some (.z, 3), some (.t, 4)⟩ ∧
+    readRec true 4 (rename "t" "e" fs) = .ok ⟨(.xy, 1, 2), some (.z, 3), some (.t, 40)⟩ := by
+  intro fs
+  exact ⟨by rfl, by rfl⟩
+
+/-- the hypotheses are satisfiable: a (px, py, eta, mass, charge) record — `mass` is the only temporal spelling, so it
+reads like (px, py, eta, tau, charge) -/
+example :
+    let fs : List (String × Int) := [("px", 1), ("py", 2), ("eta", 3), ("tau", 4), ("charge", 5)]
+    (∀ s ∈ spellings "tau", s ≠ "tau" → s ∉ fieldNames fs) ∧
+    rename "tau" "mass" fs = [("px", 1), ("py", 2), ("eta", 3), ("mass", 4), ("charge", 5)] ∧
+    readRec true 4 (rename "tau" "mass" fs) = .ok ⟨(.xy, 1, 2), some (.eta, 3), some (.tau, 4)⟩ ∧
+    nbReadRec true 4 (rename "tau" "mass" fs) = .ok ⟨(.xy, 1, 2), some (.eta, 3), some (.tau, 4)⟩ ∧
+    readRec false 4 (rename "tau" "mass" fs) = .error .valueError := by
+  intro fs
+  exact ⟨by decide, by rfl, by rfl, by rfl, by rfl⟩
+
+/-! ## 7. typing order vs lowering order: dtypes (`c14f_numba_dtype_*`)
+
+The typer looks the momentum spelling up FIRST (`px` before `x`, `E`/`e`/`energy` before `t`, …), the lowering the generic
+one.  For the VALUES this is harmless (section 3: the getters decide, and they agree with the interpreter).  But the
+declared type takes its dtypes from the fields the typer found. -/
+
+/-- which field gives the dtype of the first azimuthal coordinate of a momentum record: `px` if present -/
+theorem c14f_typer_prefers_momentum (p : String → Bool) :
+    (∀ i j, nbAzTypeP true p = .ok (.xy, i, j) →
+      i = (if p "px" then "px" else "x") ∧ j = (if p "py" then "py" else "y")) ∧
+    (∀ i j, nbAzTypeP true p = .ok (.rhophi, i, j) → i = (if p "pt" then "pt" else "rho") ∧ j = "phi") ∧
+    (∀ i, nbLonTypeP true p = .ok (.z, i) → i = (if p "pz" then "pz" else "z")) ∧
+    (∀ i, nbTmpTypeP true p = .ok (.t, i) →
+      i = (if p "E" then "E" else if p "e" then "e" else if p "energy" then "energy" else "t")) ∧
+    (∀ i, nbTmpTypeP true p = .ok (.tau, i) →
+      i = (if p "M" then "M" else if p "m" then "m" else if p "mass" then "mass" else "tau")) := by
+  refine ⟨?_, ?_, ?_, ?_, ?_⟩
+  · intro i j
+    cases h1 : p "x" <;> cases h2 : p "y" <;> cases h3 : p "px" <;> cases h4 : p "py" <;> cases h5 : p "rho" <;>
+      cases h6 : p "pt" <;> cases h7 : p "phi" <;> simp [nbAzTypeP, idx, h1, h2, h3, h4, h5, h6, h7] <;>
+      (intro a b; simp [a, b])
+  · intro i j
+    cases h1 : p "x" <;> cases h2 : p "y" <;> cases h3 : p "px" <;> cases h4 : p "py" <;> cases h5 : p "rho" <;>
+      cases h6 : p "pt" <;> cases h7 : p "phi" <;> simp [nbAzTypeP, idx, h1, h2, h3, h4, h5, h6, h7] <;>
+      (intro a b; simp [a, b])
+  · intro i
+    cases h1 : p "z" <;> cases h2 : p "pz" <;> cases h3 : p "theta" <;> cases h4 : p "eta" <;>
+      simp [nbLonTypeP, idx, h1, h2, h3, h4] <;> (intro a; simp [a])
+  · intro i
+    cases h1 : p "t" <;> cases h2 : p "E" <;> cases h3 : p "e" <;> cases h4 : p "energy" <;> cases h5 : p "tau" <;>
+      cases h6 : p "M" <;> cases h7 : p "m" <;> cases h8 : p "mass" <;>
+      simp [nbTmpTypeP, idx, h1, h2, h3, h4, h5, h6, h7, h8] <;> (intro a; simp [a])
+  · intro i
+    cases h1 : p "t" <;> cases h2 : p "E" <;> cases h3 : p "e" <;> cases h4 : p "energy" <;> cases h5 : p "tau" <;>
+      cases h6 : p "M" <;> cases h7 : p "m" <;> cases h8 : p "mass" <;>
+      simp [nbTmpTypeP, idx, h1, h2, h3, h4, h5, h6, h7, h8] <;> (intro a; simp [a])
+
+/-- which field the compiled code reads: the generic spelling if present (the interpreter's order) -/
+theorem c14f_lowering_prefers_generic (p : String → Bool) :
+    (∀ i j, nbLowerAz .xy p = .ok (i, j) → i = (if p "x" then "x" else "px") ∧ j = (if p "y" then "y" else "py")) ∧
+    (∀ i j, nbLowerAz .rhophi p = .ok (i, j) → i = (if p "rho" then "rho" else "pt") ∧ j = "phi") ∧
+    (∀ i, nbLowerLon .z p = .ok i → i = (if p "z" then "z" else "pz")) ∧
+    (∀ i, nbLowerTmp .t p = .ok i →
+      i = (if p "t" then "t" else if p "E" then "E" else if p "e" then "e" else "energy")) ∧
+    (∀ i, nbLowerTmp .tau p = .ok i →
+      i = (if p "tau" then "tau" else if p "M" then "M" else if p "m" then "m" else "mass")) := by
+  refine ⟨?_, ?_, ?_, ?_, ?_⟩
+  · intro i j
+    cases h1 : p "x" <;> cases h2 : p "y" <;> cases h3 : p "px" <;> cases h4 : p "py" <;>
+      simp [nbLowerAz, h1, h2, h3, h4] <;> (intro a b; simp [a, b])
+  · intro i j
+    cases h5 : p "rho" <;> cases h6 : p "pt" <;> cases h7 : p "phi" <;> simp [nbLowerAz, h5, h6, h7] <;>
+      (intro a b; simp [a, b])
+  · intro i
+    cases h1 : p "z" <;> cases h2 : p "pz" <;> simp [nbLowerLon, h1, h2] <;> (intro a; simp [a])
+  · intro i
+    cases h1 : p "t" <;> cases h2 : p "E" <;> cases h3 : p "e" <;> cases h4 : p "energy" <;>
+      simp [nbLowerTmp, h1, h2, h3, h4] <;> (intro a; simp [a])
+  · intro i
+    cases h5 : p "tau" <;> cases h6 : p "M" <;> cases h7 : p "m" <;> cases h8 : p "mass" <;>
+      simp [nbLowerTmp, h5, h6, h7, h8] <;> (intro a; simp [a])
+
+/-- a generic spelling together with a momentum spelling of the same coordinate -/
+def doubled (p : String → Bool) : Bool :=
+  (p "x" && p "px") || (p "y" && p "py") || (p "rho" && p "pt") || (p "z" && p "pz") ||
+  (p "t" && (p "E" || p "e" || p "energy")) || (p "tau" && (p "M" || p "m" || p "mass"))
+
+private theorem az_dt (mom : Bool) (p : String → Bool) (a : Az × String × String) (n : String × String)
+    (hA : nbAzTypeP mom p = .ok a) (hn : nbLowerAz a.1 p = .ok n) :
+    p a.2.1 = true ∧ p a.2.2 = true ∧ p n.1 = true ∧ p n.2 = true ∧
+    ((mom = false ∨ doubled p = false) → a.2.1 = n.1 ∧ a.2.2 = n.2) := by
+  obtain ⟨sys, i, j⟩ := a
+  obtain ⟨n1, n2⟩ := n
+  revert hA hn
+  cases sys <;> cases mom <;> cases hx : p "x" <;> cases hy : p "y" <;> cases hpx : p "px" <;> cases hpy : p "py" <;>
+    cases hrho : p "rho" <;> cases hpt : p "pt" <;> cases hphi : p "phi" <;>
+    simp [nbAzTypeP, nbLowerAz, idx, doubled, hx, hy, hpx, hpy, hrho, hpt, hphi] <;>
+    (intro a b c d; subst a b c d; simp [hx, hy, hpx, hpy, hrho, hpt, hphi])
+
+private theorem lon_dt (mom : Bool) (p : String → Bool) (l : Lon × String) (n : String)
+    (hA : nbLonTypeP mom p = .ok l) (hn : nbLowerLon l.1 p = .ok n) :
+    p l.2 = true ∧ p n = true ∧ ((mom = false ∨ doubled p = false) → l.2 = n) := by
+  obtain ⟨sys, i⟩ := l
+  revert hA hn
+  cases sys <;> cases mom <;> cases hz : p "z" <;> cases hpz : p "pz" <;> cases hth : p "theta" <;>
+    cases heta : p "eta" <;>
+    simp [nbLonTypeP, nbLowerLon, idx, doubled, hz, hpz, hth, heta] <;>
+    (intro a b; subst a b; simp [hz, hpz, hth, heta])
+
+private theorem tmp_dt_false (p : String → Bool) (t : Tmp × String) (n : String)
+    (hA : nbTmpTypeP false p = .ok t) (hn : nbLowerTmp t.1 p = .ok n) :
+    p t.2 = true ∧ p n = true ∧ t.2 = n := by
+  obtain ⟨sys, i⟩ := t
+  revert hA hn
+  cases sys <;> cases ht : p "t" <;> cases htau : p "tau" <;>
+    simp [nbTmpTypeP, nbLowerTmp, idx, ht, htau] <;>
+    (intro a; subst a; simp [ht, htau]) <;> (intro b; subst b; simp [ht, htau])
+
+private theorem tmp_dt_true_t (p : String → Bool) (i n : String)
+    (hA : nbTmpTypeP true p = .ok (.t, i)) (hn : nbLowerTmp .t p = .ok n) :
+    p i = true ∧ p n = true ∧ ((p "t" && (p "E" || p "e" || p "energy")) = false → i = n) := by
+  have h1 := (c14f_typer_prefers_momentum p).2.2.2.1 i hA
+  have h2 := (c14f_lowering_prefers_generic p).2.2.2.1 n hn
+  subst h1 h2
+  revert hA hn
+  cases ht : p "t" <;> cases hE : p "E" <;> cases he : p "e" <;> cases hen : p "energy" <;>
+    simp [nbTmpTypeP, nbLowerTmp, idx, ht, hE, he, hen]
+
+private theorem tmp_dt_true_tau (p : String → Bool) (i n : String)
+    (hA : nbTmpTypeP true p = .ok (.tau, i)) (hn : nbLowerTmp .tau p = .ok n) :
+    p i = true ∧ p n = true ∧ ((p "tau" && (p "M" || p "m" || p "mass")) = false → i = n) := by
+  have h1 := (c14f_typer_prefers_momentum p).2.2.2.2 i hA
+  have h2 := (c14f_lowering_prefers_generic p).2.2.2.2 n hn
+  subst h1 h2
+  revert hA hn
+  cases ht : p "t" <;> cases hE : p "E" <;> cases he : p "e" <;> cases hen : p "energy" <;>
+    cases htau : p "tau" <;> cases hM : p "M" <;> cases hm : p "m" <;> cases hmass : p "mass" <;>
+    simp [nbTmpTypeP, nbLowerTmp, idx, ht, hE, he, hen, htau, hM, hm, hmass]
+
+private theorem tmp_dt (mom : Bool) (p : String → Bool) (t : Tmp × String) (n : String)
+    (hA : nbTmpTypeP mom p = .ok t) (hn : nbLowerTmp t.1 p = .ok n) :
+    p t.2 = true ∧ p n = true ∧ ((mom = false ∨ doubled p = false) → t.2 = n) := by
+  cases mom with
+  | false =>
+    obtain ⟨a, b, c⟩ := tmp_dt_false p t n hA hn
+    exact ⟨a, b, fun _ => c⟩
+  | true =>
+    obtain ⟨sys, i⟩ := t
+    cases sys with
+    | t =>
+      obtain ⟨a, b, c⟩ := tmp_dt_true_t p i n hA hn
+      refine ⟨a, b, fun h => c ?_⟩
+      rcases h with h | h
+      · exact absurd h (by decide)
+      · simp only [doubled, Bool.or_eq_false_iff] at h
+        exact h.1.2
+    | tau =>
+      obtain ⟨a, b, c⟩ := tmp_dt_true_tau p i n hA hn
+      refine ⟨a, b, fun h => c ?_⟩
+      rcases h with h | h
+      · exact absurd h (by decide)
+      · simp only [doubled, Bool.or_eq_false_iff] at h
+        exact h.2
+
+/-- shape of a successful typing + lowering -/
+private theorem type_lower_parts (mom : Bool) (dim : Nat) (g : FMap S) (ty : NbType) (gt : NbGetters)
+    (hT : nbTypeP mom dim g.has = .ok ty) (hL : nbLowerP ty g.has = .ok gt) :
+    (nbAzTypeP mom g.has = .ok ty.az ∧ nbLowerAz ty.az.1 g.has = .ok gt.az) ∧
+    ((ty.lon = none ∧ gt.lon = none) ∨
+      ∃ l n, ty.lon = some l ∧ gt.lon = some n ∧ nbLonTypeP mom g.has = .ok l ∧ nbLowerLon l.1 g.has = .ok n) ∧
+    ((ty.tmp = none ∧ gt.tmp = none) ∨
+      ∃ t n, ty.tmp = some t ∧ gt.tmp = some n ∧ nbTmpTypeP mom g.has = .ok t ∧ nbLowerTmp t.1 g.has = .ok n) := by
+  unfold nbTypeP at hT
+  cases hA : nbAzTypeP mom g.has with
+  | error e => simp [hA] at hT
+  | ok a =>
+    simp only [hA] at hT
+    by_cases hd : dim < 3
+    · simp only [hd, if_true, Except.ok.injEq] at hT
+      subst hT
+      simp only [nbLowerP] at hL
+      cases hn : nbLowerAz a.1 g.has with
+      | error e => simp [hn] at hL
+      | ok n =>
+        simp only [hn, Except.ok.injEq] at hL
+        subst hL
+        simp
+    · simp only [hd, if_false] at hT
+      cases hl : nbLonTypeP mom g.has with
+      | error e => simp [hl] at hT
+      | ok l =>
+        simp only [hl] at hT
+        by_cases hd4 : dim < 4
+        · simp only [hd4, if_true, Except.ok.injEq] at hT
+          subst hT
+          simp only [nbLowerP] at hL
+          cases hn : nbLowerAz a.1 g.has with
+          | error e => simp [hn] at hL
+          | ok n =>
+            simp only [hn] at hL
+            cases hln : nbLowerLon l.1 g.has with
+            | error e => simp [hln] at hL
+            | ok ln =>
+              simp only [hln, Except.ok.injEq] at hL
+              subst hL
+              simp [hln]
+        · simp only [hd4, if_false] at hT
+          cases ht : nbTmpTypeP mom g.has with
+          | error e => simp [ht] at hT
+          | ok t =>
+            simp only [ht, Except.ok.injEq] at hT
+            subst hT
+            simp only [nbLowerP] at hL
+            cases hn : nbLowerAz a.1 g.has with
+            | error e => simp [hn] at hL
+            | ok n =>
+              simp only [hn] at hL
+              cases hln : nbLowerLon l.1 g.has with
+              | error e => simp [hln] at hL
+              | ok ln =>
+                simp only [hln] at hL
+                cases htn : nbLowerTmp t.1 g.has with
+                | error e => simp [htn] at hL
+                | ok tn =>
+                  simp only [htn, Except.ok.injEq] at hL
+                  subst hL
+                  simp [hln, htn]
+
+private theorem nbReadDM_eq_of {D : Type} [DecidableEq D] (dt : S → D) (mom : Bool) (dim : Nat) (g : FMap S)
+    (h : ∀ ty gt, nbTypeP mom dim g.has = .ok ty → nbLowerP ty g.has = .ok gt →
+      ty.names.map (fun n => (g n).map dt) = gt.names.map (fun n => (g n).map dt)) :
+    nbReadDM dt mom dim g = nbReadM mom dim g := by
+  unfold nbReadDM nbReadM
+  cases hT : nbTypeP mom dim g.has with
+  | error e => rfl
+  | ok ty =>
+    cases hL : nbLowerP ty g.has with
+    | error e => simp only [hL]
+    | ok gt =>
+      simp only [hL]
+      rw [if_pos (h ty gt hT hL)]
+
+/-- the typer and the lowering pick the SAME fields — hence no dtype conflict, whatever the dtypes — on every generic
+record, and on every momentum record that does not carry a generic and a momentum spelling of one coordinate -/
+theorem c14f_numba_dtype_same_fields (mom : Bool) (dim : Nat) (g : FMap S)
+    (hs : mom = false ∨ doubled g.has = false) (ty : NbType) (gt : NbGetters)
+    (hT : nbTypeP mom dim g.has = .ok ty) (hL : nbLowerP ty g.has = .ok gt) : ty.names = gt.names := by
+  obtain ⟨⟨hA, hn⟩, hlon, htmp⟩ := type_lower_parts mom dim g ty gt hT hL
+  have h1 := (az_dt mom g.has _ _ hA hn).2.2.2.2 hs
+  rcases hlon with ⟨a, b⟩ | ⟨l, n, a, b, c, d⟩ <;> rcases htmp with ⟨a', b'⟩ | ⟨t, n', a', b', c', d'⟩
+  · simp [NbType.names, NbGetters.names, a, b, a', b', h1.1, h1.2]
+  · simp [NbType.names, NbGetters.names, a, b, a', b', h1.1, h1.2, (tmp_dt mom g.has _ _ c' d').2.2 hs]
+  · simp [NbType.names, NbGetters.names, a, b, a', b', h1.1, h1.2, (lon_dt mom g.has _ _ c d).2.2 hs]
+  · simp [NbType.names, NbGetters.names, a, b, a', b', h1.1, h1.2, (lon_dt mom g.has _ _ c d).2.2 hs,
+      (tmp_dt mom g.has _ _ c' d').2.2 hs]
+
+/-- (D1) generic records: compiled with dtypes = compiled on values, whatever the dtypes -/
+theorem c14f_numba_dtype_generic {D : Type} [DecidableEq D] (dt : S → D) (dim : Nat) (fs : List (String × S)) :
+    nbReadRecD dt false dim fs = nbReadRec false dim fs := by
+  rw [c14f_nbReadRecD_eq, c14f_nbReadRec_eq]
+  apply nbReadDM_eq_of
+  intro ty gt hT hL
+  rw [c14f_numba_dtype_same_fields false dim _ (Or.inl rfl) ty gt hT hL]
+
+/-- (D2) momentum records with AT MOST ONE spelling per coordinate (no generic name next to one of its momentum
+synonyms): compiled with dtypes = compiled on values = interpreted, whatever the dtypes -/
+theorem c14f_numba_dtype_single {D : Type} [DecidableEq D] (dt : S → D) (mom : Bool) (dim : Nat)
+    (fs : List (String × S)) (h : doubled (fun n => (fieldNames fs).contains n) = false) :
+    nbReadRecD dt mom dim fs = nbReadRec mom dim fs ∧
+    nbReadRecD dt mom dim fs = (readRec mom dim fs).mapError (fun _ => FErr.typingError) := by
+  rw [has_eq] at h
+  have key : nbReadRecD dt mom dim fs = nbReadRec mom dim fs := by
+    rw [c14f_nbReadRecD_eq, c14f_nbReadRec_eq]
+    apply nbReadDM_eq_of
+    intro ty gt hT hL
+    rw [c14f_numba_dtype_same_fields mom dim _ (Or.inr h) ty gt hT hL]
+  exact ⟨key, by rw [key, c14f_numba_agrees]⟩
+
+private theorem names_present (mom : Bool) (dim : Nat) (g : FMap S) (ty : NbType) (gt : NbGetters)
+    (hT : nbTypeP mom dim g.has = .ok ty) (hL : nbLowerP ty g.has = .ok gt) :
+    (∀ n ∈ ty.names, g.has n = true) ∧ (∀ n ∈ gt.names, g.has n = true) ∧ ty.names.length = gt.names.length := by
+  obtain ⟨⟨hA, hn⟩, hlon, htmp⟩ := type_lower_parts mom dim g ty gt hT hL
+  have ha := az_dt mom g.has _ _ hA hn
+  rcases hlon with ⟨a, b⟩ | ⟨l, n, a, b, c, d⟩ <;> rcases htmp with ⟨a', b'⟩ | ⟨t, n', a', b', c', d'⟩
+  · simp [NbType.names, NbGetters.names, a, b, a', b', ha.1, ha.2.1, ha.2.2.1, ha.2.2.2.1]
+  · have ht := tmp_dt mom g.has _ _ c' d'
+    simp [NbType.names, NbGetters.names, a, b, a', b', ha.1, ha.2.1, ha.2.2.1, ha.2.2.2.1, ht.1, ht.2.1]
+  · have hl := lon_dt mom g.has _ _ c d
+    simp [NbType.names, NbGetters.names, a, b, a', b', ha.1, ha.2.1, ha.2.2.1, ha.2.2.2.1, hl.1, hl.2.1]
+  · have hl := lon_dt mom g.has _ _ c d
+    have ht := tmp_dt mom g.has _ _ c' d'
+    simp [NbType.names, NbGetters.names, a, b, a', b', ha.1, ha.2.1, ha.2.2.1, ha.2.2.2.1, hl.1, hl.2.1, ht.1, ht.2.1]
+
+private theorem map_const_of_present {D : Type} (dt : S → D) (d0 : D) (g : FMap S)
+    (hu : ∀ n v, g n = some v → dt v = d0) (names : List String) (h : ∀ n ∈ names, g.has n = true) :
+    names.map (fun n => (g n).map dt) = List.replicate names.length (some d0) := by
+  induction names with
+  | nil => rfl
+  | cons n ns ih =>
+    have hn := h n (by simp)
+    have ih := ih (fun m hm => h m (by simp [hm]))
+    simp only [List.map_cons, List.length_cons, List.replicate_succ, ih]
+    congr 1
+    simp only [FMap.has] at hn
+    cases hv : g n with
+    | none => simp [hv] at hn
+    | some v => simp [hu n v hv]
+
+/-- (D3) all fields of one dtype: no dtype conflict, on every record -/
+theorem c14f_numba_dtype_uniform {D : Type} [DecidableEq D] (dt : S → D) (d0 : D) (mom : Bool) (dim : Nat)
+    (fs : List (String × S)) (hu : ∀ f ∈ fs, dt f.2 = d0) :
+    nbReadRecD dt mom dim fs = nbReadRec mom dim fs := by
+  rw [c14f_nbReadRecD_eq, c14f_nbReadRec_eq]
+  apply nbReadDM_eq_of
+  intro ty gt hT hL
+  have hu' : ∀ n v, look fs n = some v → dt v = d0 := by
+    intro n v hv
+    simp only [look, List.lookup_eq_some_iff] at hv
+    obtain ⟨l₁, l₂, rfl, _⟩ := hv
+    exact hu (n, v) (by simp)
+  obtain ⟨h1, h2, h3⟩ := names_present mom dim _ ty gt hT hL
+  rw [map_const_of_present dt d0 _ hu' _ h1, map_const_of_present dt d0 _ hu' _ h2, h3]
+
+/-- typing errors are `TypingError`s -/
+private theorem nbTypeP_error (mom : Bool) (dim : Nat) (p : String → Bool) (e : FErr)
+    (h : nbTypeP mom dim p = .error e) : e = .typingError := by
+  have hA : ∀ e, nbAzTypeP mom p = .error e → e = .typingError := by
+    intro e h
+    unfold nbAzTypeP at h
+    dsimp only at h
+    split at h
+    · cases h
+    · split at h
+      · cases h
+      · exact (Except.error.inj h).symm
+  have hLn : ∀ e, nbLonTypeP mom p = .error e → e = .typingError := by
+    intro e h
+    unfold nbLonTypeP at h
+    dsimp only at h
+    split at h
+    · cases h
+    · split at h
+      · cases h
+      · split at h
+        · cases h
+        · exact (Except.error.inj h).symm
+  have hTm : ∀ e, nbTmpTypeP mom p = .error e → e = .typingError := by
+    intro e h
+    unfold nbTmpTypeP at h
+    dsimp only at h
+    split at h
+    · cases h
+    · split at h
+      · cases h
+      · exact (Except.error.inj h).symm
+  unfold nbTypeP at h
+  split at h
+  · rename_i e' he; simp only [Except.error.injEq] at h; subst h; exact hA _ he
+  · split at h
+    · simp at h
+    · split at h
+      · rename_i e' he; simp only [Except.error.injEq] at h; subst h; exact hLn _ he
+      · split at h
+        · simp at h
+        · split at h
+          · rename_i e' he; simp only [Except.error.injEq] at h; subst h; exact hTm _ he
+          · simp at h
+
+/-- (D4) THE DIFFERENCE between typing order and lowering order.  A momentum record with `x` AND `px` of different
+dtypes (and a second azimuthal coordinate, `y` or `py`): the typer takes the dtype of `px`, the getter reads `x` — the
+compilation fails with `TypingError`, in every dimension and whatever else the record has, although the interpreter
+(and the value-level compiled view) read `x` and succeed whenever the other coordinates are there. -/
+theorem c14f_numba_dtype_conflict_x {D : Type} [DecidableEq D] (dt : S → D) (dim : Nat) (g : FMap S) (x px : S)
+    (hx : g "x" = some x) (hpx : g "px" = some px) (hy : g.has "y" = true ∨ g.has "py" = true)
+    (hd : dt x ≠ dt px) : nbReadDM dt true dim g = .error .typingError := by
+  unfold nbReadDM
+  cases hT : nbTypeP true dim g.has with
+  | error e => rw [nbTypeP_error _ _ _ _ hT]
+  | ok ty =>
+    cases hL : nbLowerP ty g.has with
+    | error e =>
+      have h1 : nbReadM true dim g = .error e := by simp only [nbReadM, hT, hL]
+      rw [c14f_numba_agrees_map] at h1
+      cases h' : readM true dim g with
+      | ok st => simp [h', Except.mapError] at h1
+      | error e' => simp [h', Except.mapError] at h1; simp only [hL, h1]
+    | ok gt =>
+      simp only [hL]
+      rw [if_neg]
+      intro hc
+      obtain ⟨⟨hA, hn⟩, -, -⟩ := type_lower_parts true dim g ty gt hT hL
+      have hxh : g.has "x" = true := by simp [FMap.has, hx]
+      have hpxh : g.has "px" = true := by simp [FMap.has, hpx]
+      rcases hty : ty.az with ⟨sys, i, j⟩
+      rcases hgt : gt.az with ⟨n1, n2⟩
+      rw [hty] at hA hn
+      rw [hgt] at hn
+      have hsys : sys = .xy ∧ i = "px" := by
+        revert hA
+        rcases hy with hy | hy <;> cases hy' : g.has "y" <;> cases hpy' : g.has "py" <;>
+          simp_all [nbAzTypeP, idx] <;> (intro a b c; simp [a, b])
+      obtain ⟨rfl, rfl⟩ := hsys
+      have hn1 : n1 = "x" := by
+        have := ((c14f_lowering_prefers_generic g.has).1 n1 n2 hn).1
+        simpa [hxh] using this
+      subst hn1
+      simp only [NbType.names, NbGetters.names, hty, hgt, List.map_append, List.map_cons, List.cons_append,
+        List.cons.injEq] at hc
+      have := hc.1
+      simp only [hx, hpx, Option.map_some, Option.some.injEq] at this
+      exact hd this.symm
+
+/-- list form of (D4) -/
+theorem c14f_numba_dtype_conflict {D : Type} [DecidableEq D] (dt : S → D) (dim : Nat) (fs : List (String × S))
+    (x px : S) (hx : look fs "x" = some x) (hpx : look fs "px" = some px)
+    (hy : "y" ∈ fieldNames fs ∨ "py" ∈ fieldNames fs) (hd : dt x ≠ dt px) :
+    nbReadRecD dt true dim fs = .error .typingError := by
+  rw [c14f_nbReadRecD_eq]
+  refine c14f_numba_dtype_conflict_x dt dim _ x px hx hpx ?_ hd
+  rcases hy with h | h
+  · exact Or.inl (by rw [← c14f_names_contains]; simpa using h)
+  · exact Or.inr (by rw [← c14f_names_contains]; simpa using h)
+
+/-- the minimal witness (values with a dtype tag): `ak.zip({"x": float64, "px": int64, "y": float64},
+with_name="Momentum2D")` — the interpreter reads (x, y), the typer declares the dtype of (px, y), the getter `_awkward_numba_xy`
+reads (x, y): `TypingError` ("No conversion from MomentumObject2DType(AzimuthalObjectXY(float64 x 2)) to …(int64, float64)").
+The same fields in a generic `Vector2D` record compile. -/
+theorem c14f_numba_dtype_witness :
+    let fs : List (String × (Int × String)) := [("x", (1, "f")), ("px", (10, "i")), ("y", (2, "f"))]
+    readRec true 2 fs = .ok ⟨(.xy, (1, "f"), (2, "f")), none, none⟩ ∧
+    nbReadRec true 2 fs = .ok ⟨(.xy, (1, "f"), (2, "f")), none, none⟩ ∧
+    nbType true 2 (fieldNames fs) = .ok ⟨(.xy, "px", "y"), none, none⟩ ∧
+    nbLower ⟨(.xy, "px", "y"), none, none⟩ (fieldNames fs) = .ok ⟨("x", "y"), none, none⟩ ∧
+    nbReadRecD (fun v => v.2) true 2 fs = .error .typingError ∧
+    nbReadRecD (fun v => v.2) false 2 fs = .ok ⟨(.xy, (1, "f"), (2, "f")), none, none⟩ := by
+  intro fs
+  exact ⟨by rfl, by rfl, by rfl, by rfl, by rfl, by rfl⟩
+
+/-- one witness for each of the other five doubled coordinates (y/py, rho/pt, z/pz, t/E, tau/mass): interpreted fine,
+compilation fails -/
+theorem c14f_numba_dtype_witness_others :
+    let dt : Int × String → String := fun v => v.2
+    let r1 : List (String × (Int × String)) := [("x", (1, "i")), ("y", (2, "i")), ("py", (20, "f"))]
+    let r2 : List (String × (Int × String)) := [("rho", (1, "i")), ("pt", (10, "f")), ("phi", (2, "i"))]
+    let r3 : List (String × (Int × String)) := [("x", (1, "i")), ("y", (2, "i")), ("z", (3, "i")), ("pz", (30, "f"))]
+    let r4 : List (String × (Int × String)) :=
+      [("x", (1, "i")), ("y", (2, "i")), ("z", (3, "i")), ("t", (4, "i")), ("E", (40, "f"))]
+    let r5 : List (String × (Int × String)) :=
+      [("x", (1, "i")), ("y", (2, "i")), ("z", (3, "i")), ("tau", (4, "i")), ("mass", (40, "f"))]
+    (readRec true 2 r1 = .ok ⟨(.xy, (1, "i"), (2, "i")), none, none⟩ ∧ nbReadRecD dt true 2 r1 = .error .typingError) ∧
+    (readRec true 2 r2 = .ok ⟨(.rhophi, (1, "i"), (2, "i")), none, none⟩ ∧
+      nbReadRecD dt true 2 r2 = .error .typingError) ∧
+    (readRec true 3 r3 = .ok ⟨(.xy, (1, "i"), (2, "i")), some (.z, (3, "i")), none⟩ ∧
+      nbReadRecD dt true 3 r3 = .error .typingError) ∧
+    (readRec true 4 r4 = .ok ⟨(.xy, (1, "i"), (2, "i")), some (.z, (3, "i")), some (.t, (4, "i"))⟩ ∧
+      nbReadRecD dt true 4 r4 = .error .typingError) ∧
+    (readRec true 4 r5 = .ok ⟨(.xy, (1, "i"), (2, "i")), some (.z, (3, "i")), some (.tau, (4, "i"))⟩ ∧
+      nbReadRecD dt true 4 r5 = .error .typingError) := by
+  intro dt r1 r2 r3 r4 r5
+  exact ⟨⟨by rfl, by rfl⟩, ⟨by rfl, by rfl⟩, ⟨by rfl, by rfl⟩, ⟨by rfl, by rfl⟩, ⟨by rfl, by rfl⟩⟩
+
+/-- two spellings of the SAME momentum kind (`E` and `e`, `M` and `mass`) are no conflict: typer and lowering look them
+up in the same order -/
+example :
+    let dt : Int × String → String := fun v => v.2
+    let r : List (String × (Int × String)) :=
+      [("x", (1, "i")), ("y", (2, "i")), ("z", (3, "i")), ("M", (4, "i")), ("mass", (40, "f")), ("e", (7, "f"))]
+    nbReadRecD dt true 4 r = .ok ⟨(.xy, (1, "i"), (2, "i")), some (.z, (3, "i")), some (.t, (7, "f"))⟩ ∧
+    readRec true 4 r = .ok ⟨(.xy, (1, "i"), (2, "i")), some (.z, (3, "i")), some (.t, (7, "f"))⟩ := by
+  intro dt r
+  exact ⟨by rfl, by rfl⟩
+
+/-! ## 8. `_wrap_result` (the repair 17af0b2): reading the wrapped result gives the FRESH values
+
+`realWrap` (Glue/Awkward.lean) = the real `_wrap_result`: the declared result coordinates under their generic names,
+followed by the fields of `self` that the branch's literal tuple does not exclude.  Whatever `self` carried — stale
+`px`, `py`, `pt`, … in any order — every reader of the result finds the fresh values. -/
+
+private theorem azOfM_congr (mom : Bool) (g g' : FMap S)
+    (h : ∀ n ∈ ["x", "px", "y", "py", "rho", "pt", "phi"], g n = g' n) : azOfM mom g = azOfM mom g' := by
+  have h1 := h "x" (by decide); have h2 := h "px" (by decide); have h3 := h "y" (by decide)
+  have h4 := h "py" (by decide); have h5 := h "rho" (by decide); have h6 := h "pt" (by decide)
+  have h7 := h "phi" (by decide)
+  simp only [azOfM, c14f_priority_az, c14f_priority_az_mom, h1, h2, h3, h4, h5, h6, h7]
+
+private theorem lonOfM_congr (mom : Bool) (g g' : FMap S)
+    (h : ∀ n ∈ ["z", "pz", "theta", "eta"], g n = g' n) : lonOfM mom g = lonOfM mom g' := by
+  have h8 := h "z" (by decide); have h9 := h "pz" (by decide)
+  have h10 := h "theta" (by decide); have h11 := h "eta" (by decide)
+  simp only [lonOfM, c14f_priority_lon, c14f_priority_lon_mom, h8, h9, h10, h11]
+
+private theorem tmpOfM_congr (mom : Bool) (g g' : FMap S)
+    (h : ∀ n ∈ ["t", "E", "e", "energy", "tau", "M", "m", "mass"], g n = g' n) : tmpOfM mom g = tmpOfM mom g' := by
+  have h12 := h "t" (by decide)
+  have h13 := h "E" (by decide); have h14 := h "e" (by decide); have h15 := h "energy" (by decide)
+  have h16 := h "tau" (by decide); have h17 := h "M" (by decide); have h18 := h "m" (by decide)
+  have h19 := h "mass" (by decide)
+  simp only [tmpOfM, c14f_priority_tmp, c14f_priority_tmp_mom, h12, h13, h14, h15, h16, h17, h18, h19]
+
+/-- a name in the branch's tuple is not among the carried fields; a name outside it is carried with its value (unary) -/
+private theorem lookup_carried (b : Branch) (nv : Nat) (fs : List (String × S)) (n : String) :
+    List.lookup n (b.carried nv fs) = if nv == 1 ∧ ¬ n ∈ b.excl then List.lookup n fs else none := by
+  unfold Branch.carried
+  by_cases h1 : (nv == 1) = true
+  · rw [if_pos h1, lookup_filter_name (fun n => !b.excl.contains n) fs n]
+    by_cases hn : n ∈ b.excl <;> simp [h1, hn]
+  · simp [h1]
+
+private theorem look_wrapped (b : Branch) (nv : Nat) (fs A : List (String × S)) (n : String) (hn : n ∈ b.excl) :
+    look (A ++ b.carried nv fs) n = look A n := by
+  simp only [look, List.lookup_append, lookup_carried, hn, not_true_eq_false, and_false, if_false, Option.or_none]
+
+/-- the result's declared coordinates, as a reader must find them -/
+def freshStored : List RP → List S → Option (Stored S)
+  | [.az a, .none], [r0, r1] => some ⟨(a, r0, r1), none, none⟩
+  | [.az a, .lon l, .none], [r0, r1, r2] => some ⟨(a, r0, r1), some (l, r2), none⟩
+  | [.az a, .lon l, .tmp t], [r0, r1, r2, r3] => some ⟨(a, r0, r1), some (l, r2), some (t, r3)⟩
+  | _, _ => none
+
+private theorem az_in_excl (b : Branch) : ∀ n ∈ ["x", "px", "y", "py", "rho", "pt", "phi"], n ∈ b.excl := by
+  cases b <;> decide
+
+/-- reading the azimuthal coordinates of the wrapped result `(resultNames parts).zip raw ++ b.carried nv fs`: only the
+fresh part matters, in EVERY branch -/
+private theorem wrap_az_reduce (b : Branch) (nv : Nat) (fs A : List (String × S)) (mom : Bool) :
+    azOf mom (A ++ b.carried nv fs) = azOf mom A :=
+  azOfM_congr mom _ _ (fun n hn => look_wrapped b nv fs A n (az_in_excl b n hn))
+
+private theorem wrap_full_reduce (b : Branch) (hb : b.excl = exclAll) (nv : Nat) (fs A : List (String × S))
+    (mom : Bool) (dim : Nat) : readRec mom dim (A ++ b.carried nv fs) = readRec mom dim A :=
+  readM_congr mom dim _ _
+    (fun n hn => look_wrapped b nv fs A n (by rw [hb]; exact (c18_real_exclAll_eq_coords n).2 hn))
+
+/-- THE CROSS-MODEL THEOREM, azimuthal part — for EVERY branch `b`, every declared result `parts` with
+`Branch.ofParts parts = some b`, every field list `fs` of `self` (raw momentum spellings, any order, stale values), unary
+or binary, momentum or generic reader: the azimuthal coordinates read from the wrapped result are the declared system with
+the first two raw values.  No stale spelling of `self` can win. -/
+theorem c14f_wrap_fresh_az (parts : List RP) (b : Branch) (hb : Branch.ofParts parts = some b)
+    (fs : List (String × S)) (raw : List S) (hraw : raw.length = (resultNames parts).length) (mom : Bool) (nv : Nat) :
+    ∃ a r0 r1, parts.head? = some (.az a) ∧ raw.take 2 = [r0, r1] ∧
+      azOf mom ((resultNames parts).zip raw ++ b.carried nv fs) = .ok (a, r0, r1) ∧
+      azOf mom ((resultNames parts).zip raw ++ b.carried nv fs) = azOf mom ((resultNames parts).zip raw) := by
+  rw [wrap_az_reduce]
+  unfold Branch.ofParts at hb
+  split at hb <;> simp only [Option.some.injEq, reduceCtorEq] at hb <;> subst hb
+  · rename_i a
+    cases a <;> simp [resultNames, RP.names, Az.names] at hraw <;>
+      (match raw, hraw with
+        | [r0, r1], _ => exact ⟨_, r0, r1, rfl, rfl, by cases mom <;> rfl, rfl⟩)
+  · rename_i a
+    cases a <;> simp [resultNames, RP.names, Az.names] at hraw <;>
+      (match raw, hraw with
+        | [r0, r1], _ => exact ⟨_, r0, r1, rfl, rfl, by cases mom <;> rfl, rfl⟩)
+  · rename_i a l
+    cases a <;> cases l <;> simp [resultNames, RP.names, Az.names] at hraw <;>
+      (match raw, hraw with
+        | [r0, r1, r2], _ => exact ⟨_, r0, r1, rfl, rfl, by cases mom <;> rfl, rfl⟩)
+  · rename_i a l
+    cases a <;> cases l <;> simp [resultNames, RP.names, Az.names] at hraw <;>
+      (match raw, hraw with
+        | [r0, r1, r2], _ => exact ⟨_, r0, r1, rfl, rfl, by cases mom <;> rfl, rfl⟩)
+  · rename_i a l t
+    cases a <;> cases l <;> cases t <;> simp [resultNames, RP.names, Az.names] at hraw <;>
+      (match raw, hraw with
+        | [r0, r1, r2, r3], _ => exact ⟨_, r0, r1, rfl, rfl, by cases mom <;> rfl, rfl⟩)
+
+/-- THE CROSS-MODEL THEOREM, full branches (`[Azimuthal, None]`, `[Azimuthal, Longitudinal, None]`,
+`[Azimuthal, Longitudinal, Temporal]`, i.e. `b.excl = exclAll`, see `c18_real_full_branches`): interpreter AND compiled
+code read exactly the declared coordinates with the raw values, in the dimension of the result class, whatever `self`
+carried -/
+theorem c14f_wrap_fresh_full (parts : List RP) (b : Branch) (hb : Branch.ofParts parts = some b)
+    (hfull : b.excl = exclAll) (fs : List (String × S)) (raw : List S)
+    (hraw : raw.length = (resultNames parts).length) (mom : Bool) (nv sd : Nat) :
+    ∃ st, freshStored parts raw = some st ∧
+      readRec mom (b.dim sd) ((resultNames parts).zip raw ++ b.carried nv fs) = .ok st ∧
+      nbReadRec mom (b.dim sd) ((resultNames parts).zip raw ++ b.carried nv fs) = .ok st := by
+  suffices h : ∃ st, freshStored parts raw = some st ∧
+      readRec mom (b.dim sd) ((resultNames parts).zip raw ++ b.carried nv fs) = .ok st by
+    obtain ⟨st, h1, h2⟩ := h
+    exact ⟨st, h1, h2, (c14f_numba_agrees_ok _ _ _ _).2 h2⟩
+  rw [wrap_full_reduce b hfull]
+  unfold Branch.ofParts at hb
+  split at hb <;> simp only [Option.some.injEq, reduceCtorEq] at hb <;> subst hb
+  · exact absurd hfull (by decide)
+  · rename_i a
+    cases a <;> simp [resultNames, RP.names, Az.names] at hraw <;>
+      (match raw, hraw with
+        | [r0, r1], _ => exact ⟨_, rfl, by cases mom <;> rfl⟩)
+  · exact absurd hfull (by decide)
+  · rename_i a l
+    cases a <;> cases l <;> simp [resultNames, RP.names, Az.names] at hraw <;>
+      (match raw, hraw with
+        | [r0, r1, r2], _ => exact ⟨_, rfl, by cases mom <;> rfl⟩)
+  · rename_i a l t
+    cases a <;> cases l <;> cases t <;> simp [resultNames, RP.names, Az.names] at hraw <;>
+      (match raw, hraw with
+        | [r0, r1, r2, r3], _ => exact ⟨_, rfl, by cases mom <;> rfl⟩)
+
+/-- the same two theorems phrased on `realWrap` itself (the model of the real `_wrap_result`) -/
+theorem c14f_wrap_realWrap (parts : List RP) (nv sd : Nat) (fs : List (String × S)) (raw : List S) (d : Nat)
+    (out : List (String × S)) (h : realWrap parts nv sd fs raw = .ok (d, out))
+    (hraw : raw.length = (resultNames parts).length) (mom : Bool) :
+    (∃ a r0 r1, parts.head? = some (.az a) ∧ raw.take 2 = [r0, r1] ∧ azOf mom out = .ok (a, r0, r1)) ∧
+    (∀ b, Branch.ofParts parts = some b → b.excl = exclAll →
+      ∃ st, freshStored parts raw = some st ∧ readRec mom d out = .ok st ∧ nbReadRec mom d out = .ok st) := by
+  unfold realWrap at h
+  split at h
+  · simp at h
+  · rename_i b hb
+    simp only [Except.ok.injEq, Prod.mk.injEq] at h
+    obtain ⟨rfl, rfl⟩ := h
+    refine ⟨?_, ?_⟩
+    · obtain ⟨a, r0, r1, h1, h2, h3, _⟩ := c14f_wrap_fresh_az parts b hb fs raw hraw mom nv
+      exact ⟨a, r0, r1, h1, h2, h3⟩
+    · intro b' hb' hfull
+      rw [hb] at hb'
+      simp only [Option.some.injEq] at hb'
+      subst hb'
+      exact c14f_wrap_fresh_full parts b hb hfull fs raw hraw mom nv sd
+
+private theorem lookup_zip_none (names : List String) (vals : List S) (n : String) (h : n ∉ names) :
+    List.lookup n (names.zip vals) = none := by
+  rw [List.lookup_eq_none_iff]
+  intro p hp
+  simp only [bne_iff_ne, ne_eq]
+  rintro rfl
+  exact h (List.of_mem_zip (a := p.1) (b := p.2) hp).1
+
+/-- pass-through branch `[Azimuthal]` (e.g. `rotateZ`) on a unary operand: the longitudinal and temporal coordinates of
+the result are read exactly as they are read from `self` — same system, same value, under whatever spelling `self`
+stores them (`pz`, `E`, `mass`, …) -/
+theorem c14f_wrap_passthrough_az (a : Az) (fs : List (String × S)) (raw : List S) (mom : Bool) :
+    lonOf mom ((resultNames [.az a]).zip raw ++ Branch.az.carried 1 fs) = lonOf mom fs ∧
+    tmpOf mom ((resultNames [.az a]).zip raw ++ Branch.az.carried 1 fs) = tmpOf mom fs := by
+  have key : ∀ n ∈ ["z", "pz", "theta", "eta", "t", "E", "e", "energy", "tau", "M", "m", "mass"],
+      look ((resultNames [.az a]).zip raw ++ Branch.az.carried 1 fs) n = look fs n := by
+    have hA : ∀ n ∈ ["z", "pz", "theta", "eta", "t", "E", "e", "energy", "tau", "M", "m", "mass"],
+        n ∉ Branch.az.excl := by decide
+    have hB : ∀ n ∈ ["z", "pz", "theta", "eta", "t", "E", "e", "energy", "tau", "M", "m", "mass"],
+        n ∉ resultNames [.az a] := by cases a <;> decide
+    intro n hn
+    have h1 := hB n hn
+    have h2 := hA n hn
+    simp [look, List.lookup_append, lookup_zip_none _ _ _ h1, lookup_carried, h2]
+  refine ⟨lonOfM_congr mom _ _ (fun n hn => key n ?_), tmpOfM_congr mom _ _ (fun n hn => key n ?_)⟩
+  · revert n; decide
+  · revert n; decide
+
+/-- pass-through branch `[Azimuthal, Longitudinal]` (e.g. `rotateX`) on a unary operand: fresh longitudinal coordinate, the
+temporal one is read exactly as from `self` -/
+theorem c14f_wrap_passthrough_azLon (a : Az) (l : Lon) (fs : List (String × S)) (r0 r1 r2 : S) (mom : Bool) :
+    lonOf mom ((resultNames [.az a, .lon l]).zip [r0, r1, r2] ++ Branch.azLon.carried 1 fs) = .ok (l, r2) ∧
+    tmpOf mom ((resultNames [.az a, .lon l]).zip [r0, r1, r2] ++ Branch.azLon.carried 1 fs) = tmpOf mom fs := by
+  constructor
+  · have : lonOf mom ((resultNames [.az a, .lon l]).zip [r0, r1, r2] ++ Branch.azLon.carried 1 fs) =
+        lonOf mom ((resultNames [.az a, .lon l]).zip [r0, r1, r2]) :=
+      lonOfM_congr mom _ _ (fun n hn => look_wrapped .azLon 1 fs _ n (by revert n; decide))
+    rw [this]
+    cases a <;> cases l <;> cases mom <;> rfl
+  · have hA : ∀ n ∈ ["t", "E", "e", "energy", "tau", "M", "m", "mass"], n ∉ Branch.azLon.excl := by decide
+    have hB : ∀ n ∈ ["t", "E", "e", "energy", "tau", "M", "m", "mass"], n ∉ resultNames [.az a, .lon l] := by
+      cases a <;> cases l <;> decide
+    refine tmpOfM_congr mom _ _ (fun n hn => ?_)
+    have h1 := hB n hn
+    have h2 := hA n hn
+    simp [look, List.lookup_append, lookup_zip_none _ _ _ h1, lookup_carried, h2]
+
+/-! ## 9. the hypotheses are satisfiable: a (px, py, eta, mass, charge) record -/
+
+/-- distinct names, one spelling per coordinate; interpreter = compiled = compiled with dtypes; any order; `charge` is
+ignored; generic reading fails; `to_xyzt`-like and `rotateZ`-like results read back fresh -/
+example :
+    let fs : List (String × Int) := [("px", 1), ("py", 2), ("eta", 3), ("mass", 4), ("charge", 5)]
+    (fieldNames fs).Nodup ∧ doubled (fun n => (fieldNames fs).contains n) = false ∧
+    readRec true 4 fs = .ok ⟨(.xy, 1, 2), some (.eta, 3), some (.tau, 4)⟩ ∧
+    nbReadRec true 4 fs = .ok ⟨(.xy, 1, 2), some (.eta, 3), some (.tau, 4)⟩ ∧
+    nbReadRecD (fun _ => ()) true 4 fs = .ok ⟨(.xy, 1, 2), some (.eta, 3), some (.tau, 4)⟩ ∧
+    readRec true 4 fs.reverse = readRec true 4 fs ∧
+    readRec true 4 (fs.filter (fun f => coordFieldNames.contains f.1)) = readRec true 4 fs ∧
+    readRec false 4 fs = .error .valueError ∧ nbReadRec false 4 fs = .error .typingError ∧
+    Branch.ofParts [.az .xy, .lon .z, .tmp .t] = some .azLonTmp ∧
+    realWrap [.az .xy, .lon .z, .tmp .t] 1 4 fs [10, 20, 30, 40] =
+      .ok (4, [("x", 10), ("y", 20), ("z", 30), ("t", 40), ("charge", 5)]) ∧
+    readRec true 4 [("x", 10), ("y", 20), ("z", 30), ("t", 40), ("charge", 5)] =
+      .ok ⟨(.xy, 10, 20), some (.z, 30), some (.t, 40)⟩ ∧
+    realWrap [.az .rhophi] 1 4 fs [10, 20] = .ok (4, [("rho", 10), ("phi", 20), ("eta", 3), ("mass", 4), ("charge", 5)]) ∧
+    readRec true 4 [("rho", 10), ("phi", 20), ("eta", 3), ("mass", 4), ("charge", 5)] =
+      .ok ⟨(.rhophi, 10, 20), some (.eta, 3), some (.tau, 4)⟩ := by
+  intro fs
+  refine ⟨by decide, by decide, by rfl, by rfl, by rfl, by rfl, by rfl, by rfl, by rfl, by rfl, by rfl, by rfl, by rfl,
+    by rfl⟩
+
+/-- what the pinned tree (before 17af0b2) did, and why the theorem needs the repaired tuples: with `px`, `py` NOT excluded
+in branch `[Azimuthal]`, the stale `px`, `py` of `self` stay in the result next to the fresh `rho`, `phi` — and the momentum
+reader prefers x-y: it reads the STALE pair -/
+example :
+    let stale : List (String × Int) := [("rho", 10), ("phi", 20), ("px", 1), ("py", 2), ("eta", 3), ("mass", 4)]
+    azOf true stale = .ok (.xy, 1, 2) ∧ azOf false stale = .ok (.rhophi, 10, 20) := by
+  intro stale
+  exact ⟨by rfl, by rfl⟩
+
+/-! ## 10. extras and the dtype-aware compiled view -/
+
+private theorem az_names_coord (mom : Bool) (p : String → Bool) (a : Az × String × String) (n : String × String)
+    (hA : nbAzTypeP mom p = .ok a) (hn : nbLowerAz a.1 p = .ok n) :
+    a.2.1 ∈ coordFieldNames ∧ a.2.2 ∈ coordFieldNames ∧ n.1 ∈ coordFieldNames ∧ n.2 ∈ coordFieldNames := by
+  obtain ⟨sys, i, j⟩ := a
+  obtain ⟨n1, n2⟩ := n
+  revert hA hn
+  cases sys <;> cases mom <;> cases hx : p "x" <;> cases hy : p "y" <;> cases hpx : p "px" <;> cases hpy : p "py" <;>
+    cases hrho : p "rho" <;> cases hpt : p "pt" <;> cases hphi : p "phi" <;>
+    simp [nbAzTypeP, nbLowerAz, idx, hx, hy, hpx, hpy, hrho, hpt, hphi] <;>
+    (intro a b c d; subst a b c d; decide)
+
+private theorem lon_names_coord (mom : Bool) (p : String → Bool) (l : Lon × String) (n : String)
+    (hA : nbLonTypeP mom p = .ok l) (hn : nbLowerLon l.1 p = .ok n) :
+    l.2 ∈ coordFieldNames ∧ n ∈ coordFieldNames := by
+  obtain ⟨sys, i⟩ := l
+  revert hA hn
+  cases sys <;> cases mom <;> cases hz : p "z" <;> cases hpz : p "pz" <;> cases hth : p "theta" <;>
+    cases heta : p "eta" <;>
+    simp [nbLonTypeP, nbLowerLon, idx, hz, hpz, hth, heta] <;>
+    (intro a b; subst a b; decide)
+
+private theorem tmp_names_coord (mom : Bool) (p : String → Bool) (t : Tmp × String) (n : String)
+    (hA : nbTmpTypeP mom p = .ok t) (hn : nbLowerTmp t.1 p = .ok n) :
+    t.2 ∈ coordFieldNames ∧ n ∈ coordFieldNames := by
+  obtain ⟨sys, i⟩ := t
+  cases mom with
+  | false =>
+    have := (tmp_dt_false p (sys, i) n hA hn).2.2
+    simp only at this
+    subst this
+    revert hA hn
+    cases sys <;> cases ht : p "t" <;> cases htau : p "tau" <;>
+      simp [nbTmpTypeP, nbLowerTmp, idx, ht, htau] <;> (intro a; subst a; decide)
+  | true =>
+    cases sys with
+    | t =>
+      have h1 := (c14f_typer_prefers_momentum p).2.2.2.1 i hA
+      have h2 := (c14f_lowering_prefers_generic p).2.2.2.1 n hn
+      subst h1 h2
+      constructor <;> (repeat' split) <;> decide
+    | tau =>
+      have h1 := (c14f_typer_prefers_momentum p).2.2.2.2 i hA
+      have h2 := (c14f_lowering_prefers_generic p).2.2.2.2 n hn
+      subst h1 h2
+      constructor <;> (repeat' split) <;> decide
+
+private theorem names_coord (mom : Bool) (dim : Nat) (g : FMap S) (ty : NbType) (gt : NbGetters)
+    (hT : nbTypeP mom dim g.has = .ok ty) (hL : nbLowerP ty g.has = .ok gt) :
+    (∀ n ∈ ty.names, n ∈ coordFieldNames) ∧ (∀ n ∈ gt.names, n ∈ coordFieldNames) := by
+  obtain ⟨⟨hA, hn⟩, hlon, htmp⟩ := type_lower_parts mom dim g ty gt hT hL
+  have ha := az_names_coord mom g.has _ _ hA hn
+  rcases hlon with ⟨a, b⟩ | ⟨l, n, a, b, c, d⟩ <;> rcases htmp with ⟨a', b'⟩ | ⟨t, n', a', b', c', d'⟩
+  · simp [NbType.names, NbGetters.names, a, b, a', b', ha.1, ha.2.1, ha.2.2.1, ha.2.2.2]
+  · have ht := tmp_names_coord mom g.has _ _ c' d'
+    simp [NbType.names, NbGetters.names, a, b, a', b', ha.1, ha.2.1, ha.2.2.1, ha.2.2.2, ht.1, ht.2]
+  · have hl := lon_names_coord mom g.has _ _ c d
+    simp [NbType.names, NbGetters.names, a, b, a', b', ha.1, ha.2.1, ha.2.2.1, ha.2.2.2, hl.1, hl.2]
+  · have hl := lon_names_coord mom g.has _ _ c d
+    have ht := tmp_names_coord mom g.has _ _ c' d'
+    simp [NbType.names, NbGetters.names, a, b, a', b', ha.1, ha.2.1, ha.2.2.1, ha.2.2.2, hl.1, hl.2, ht.1, ht.2]
+
+private theorem nbTypeP_congr (mom : Bool) (dim : Nat) (p p' : String → Bool) (h : ∀ n ∈ coordFieldNames, p n = p' n) :
+    nbTypeP mom dim p = nbTypeP mom dim p' := by
+  have h1 := h "x" (by decide); have h2 := h "px" (by decide); have h3 := h "y" (by decide)
+  have h4 := h "py" (by decide); have h5 := h "rho" (by decide); have h6 := h "pt" (by decide)
+  have h7 := h "phi" (by decide); have h8 := h "z" (by decide); have h9 := h "pz" (by decide)
+  have h10 := h "theta" (by decide); have h11 := h "eta" (by decide); have h12 := h "t" (by decide)
+  have h13 := h "E" (by decide); have h14 := h "e" (by decide); have h15 := h "energy" (by decide)
+  have h16 := h "tau" (by decide); have h17 := h "M" (by decide); have h18 := h "m" (by decide)
+  have h19 := h "mass" (by decide)
+  simp only [nbTypeP, nbAzTypeP, nbLonTypeP, nbTmpTypeP, idx,
+    h1, h2, h3, h4, h5, h6, h7, h8, h9, h10, h11, h12, h13, h14, h15, h16, h17, h18, h19]
+
+private theorem nbLowerP_congr (ty : NbType) (p p' : String → Bool) (h : ∀ n ∈ coordFieldNames, p n = p' n) :
+    nbLowerP ty p = nbLowerP ty p' := by
+  have h1 := h "x" (by decide); have h2 := h "px" (by decide); have h3 := h "y" (by decide)
+  have h4 := h "py" (by decide); have h5 := h "rho" (by decide); have h6 := h "pt" (by decide)
+  have h7 := h "phi" (by decide); have h8 := h "z" (by decide); have h9 := h "pz" (by decide)
+  have h12 := h "t" (by decide)
+  have h13 := h "E" (by decide); have h14 := h "e" (by decide); have h15 := h "energy" (by decide)
+  have h16 := h "tau" (by decide); have h17 := h "M" (by decide); have h18 := h "m" (by decide)
+  have h19 := h "mass" (by decide)
+  unfold nbLowerP nbLowerAz nbLowerLon nbLowerTmp
+  simp only [h1, h2, h3, h4, h5, h6, h7, h8, h9, h12, h13, h14, h15, h16, h17, h18, h19]
+
+private theorem nbImpl_congr (g g' : FMap S) (ty : NbType) (gt : NbGetters) (h : ∀ n ∈ gt.names, g n = g' n) :
+    nbImpl g ty gt = nbImpl g' ty gt := by
+  obtain ⟨⟨n1, n2⟩, ln, tn⟩ := gt
+  obtain ⟨a, tl, tt⟩ := ty
+  cases ln <;> cases tn <;> cases tl <;> cases tt <;> simp [NbGetters.names] at h <;> simp [nbImpl, rd2, rd1, h]
+
+private theorem nbReadDM_congr {D : Type} [DecidableEq D] (dt : S → D) (mom : Bool) (dim : Nat) (g g' : FMap S)
+    (h : ∀ n ∈ coordFieldNames, g n = g' n) : nbReadDM dt mom dim g = nbReadDM dt mom dim g' := by
+  have hp : ∀ n ∈ coordFieldNames, g.has n = g'.has n := fun n hn => by simp only [FMap.has, h n hn]
+  unfold nbReadDM
+  rw [nbTypeP_congr mom dim g.has g'.has hp]
+  cases hT : nbTypeP mom dim g'.has with
+  | error e => rfl
+  | ok ty =>
+    simp only
+    rw [nbLowerP_congr ty g.has g'.has hp]
+    cases hL : nbLowerP ty g'.has with
+    | error e => rfl
+    | ok gt =>
+      obtain ⟨c1, c2⟩ := names_coord mom dim g' ty gt hT hL
+      have e1 : ty.names.map (fun n => (g n).map dt) = ty.names.map (fun n => (g' n).map dt) :=
+        List.map_congr_left (fun n hn => by rw [h n (c1 n hn)])
+      have e2 : gt.names.map (fun n => (g n).map dt) = gt.names.map (fun n => (g' n).map dt) :=
+        List.map_congr_left (fun n hn => by rw [h n (c2 n hn)])
+      simp only [e1, e2, nbImpl_congr g g' ty gt (fun n hn => h n (c2 n hn))]
+
+/-- the dtype-aware compiled view reads coordinate names only, too: non-coordinate fields never matter -/
+theorem c14f_extras_dtype {D : Type} [DecidableEq D] (dt : S → D) (mom : Bool) (dim : Nat)
+    (fs : List (String × S)) :
+    nbReadRecD dt mom dim (fs.filter (fun f => coordFieldNames.contains f.1)) = nbReadRecD dt mom dim fs := by
+  rw [c14f_nbReadRecD_eq, c14f_nbReadRecD_eq]
+  exact nbReadDM_congr dt mom dim _ _
+    (fun n hn => look_filter (fun n => coordFieldNames.contains n) fs n (by simpa using hn))
 
 end
 end VG
